@@ -323,8 +323,9 @@ func ruleGuardConsent(c *Ctx, r *Rep) {
 	planO := pv.Origins(plan)
 	r.Check(len(listO) == 1 && len(planO) == 1 && listO[0] == planO[0]+"#0", "generates-the-plan", c.Pos(bulk.Pos()), "BulkUpdate executes exactly the planned change list", strings.Join(listO, ","))
 	B := bulk.Block()
-	// classify the ways into B
+	// classify the ways into B by the branch conditions known on each incoming edge
 	nFlag, nConsent := 0, 0
+	wantAnswer := "strings.ToLower(strings.TrimSpace((*bufio.Reader).ReadString(bufio.NewReader(G(os.Stdin))|K(10))#0))"
 	for _, p := range B.Preds {
 		live := false
 		for _, sx := range succs(p) { // edges after os.Exit are not real
@@ -335,16 +336,40 @@ func ruleGuardConsent(c *Ctx, r *Rep) {
 		if !live {
 			continue
 		}
-		iff, ok := p.Instrs[len(p.Instrs)-1].(*ssa.If)
-		if !ok {
-			r.Bad("entry-edge|"+sprintf("block%d", p.Index), c.Pos(bulk.Pos()), "every way into the generating block is the no-overwrite edge or the consent edge", "unconditional edge from block "+sprintf("%d", p.Index))
-			continue
+		facts := append(edgeGuard(p, B), guardsOf(p)...)
+		var flagFact *guard
+		answerYes, readOK := false, false
+		var answerPos token.Pos
+		for i := range facts {
+			g := facts[i]
+			switch cond := g.Cond.(type) {
+			case *ssa.Phi:
+				if b, ok := cond.Type().Underlying().(*types.Basic); ok && b.Kind() == types.Bool && !g.Truth && flagFact == nil {
+					flagFact = &facts[i]
+				}
+			case *ssa.BinOp:
+				if k, isK := cond.Y.(*ssa.Const); isK && k.Value != nil && k.Value.Kind() == constant.String && constant.StringVal(k.Value) == "y" {
+					o := pv.Origins(cond.X)
+					if len(o) == 1 && o[0] == wantAnswer && ((cond.Op == token.EQL && g.Truth) || (cond.Op == token.NEQ && !g.Truth)) {
+						answerYes = true
+						answerPos = g.If.Pos()
+					}
+				}
+				if k, isK := cond.Y.(*ssa.Const); isK && k.Value == nil {
+					eo := pv.Origins(cond.X)
+					if len(eo) == 1 && strings.HasSuffix(eo[0], "ReadString(bufio.NewReader(G(os.Stdin))|K(10))#1") && ((cond.Op == token.EQL && g.Truth) || (cond.Op == token.NEQ && !g.Truth)) {
+						readOK = true
+					}
+				}
+			}
 		}
-		isFalseEdge := p.Succs[1] == B && p.Succs[0] != B
-		switch cond := iff.Cond.(type) {
-		case *ssa.Phi:
-			// the warning flag: false initially, true only under change.Change == ChangeReplace inside a range over the plan
-			okFlag := isFalseEdge
+		switch {
+		case answerYes || readOK:
+			nConsent++
+			r.Check(answerYes && readOK, "consent-edge", c.Pos(answerPos), "answer == \"y\" after TrimSpace and ToLower, read from os.Stdin without error", sprintf("answer is y: %v, read error excluded: %v", answerYes, readOK))
+		case flagFact != nil:
+			cond := flagFact.Cond.(*ssa.Phi)
+			okFlag := true
 			why := ""
 			for i, e := range flattenPhi(cond) {
 				k, isK := e.val.(*ssa.Const)
@@ -374,40 +399,41 @@ func ruleGuardConsent(c *Ctx, r *Rep) {
 					}
 				}
 			}
-			// completeness: every element of the plan is examined (a range over the list without early exit that skips elements)
 			nFlag++
-			r.Check(okFlag, "no-overwrite-edge", c.Pos(iff.Pos()), "taken only when no planned change has Change == ChangeReplace", why)
-		case *ssa.BinOp:
-			// cleanS != "y" false edge
-			okC := isFalseEdge && cond.Op == token.NEQ
-			k, isK := cond.Y.(*ssa.Const)
-			if !isK || k.Value == nil || constant.StringVal(k.Value) != "y" {
-				okC = false
-			}
-			o := pv.Origins(cond.X)
-			want := "strings.ToLower(strings.TrimSpace((*bufio.Reader).ReadString(bufio.NewReader(G(os.Stdin))|K(10))#0))"
-			okC = okC && len(o) == 1 && o[0] == want
-			// and the read did not fail
-			errOK := false
-			for _, g := range guardsOf(p) {
-				if bin, isBin := g.Cond.(*ssa.BinOp); isBin && bin.Op == token.NEQ && !g.Truth {
-					eo := pv.Origins(bin.X)
-					if len(eo) == 1 && strings.HasSuffix(eo[0], "ReadString(bufio.NewReader(G(os.Stdin))|K(10))#1") {
-						errOK = true
-					}
-				}
-			}
-			nConsent++
-			r.Check(okC && errOK, "consent-edge", c.Pos(iff.Pos()), "answer == \"y\" after TrimSpace and ToLower, read from os.Stdin without error", strings.Join(o, ",")+sprintf(" (read error excluded: %v)", errOK))
-			// the refusing side does not reach generation
-			refuse := p.Succs[0]
-			reach := reachableFrom(refuse, nil)
-			r.Check(!reach[B], "refusal-exits", c.Pos(iff.Pos()), "any other answer ends the process (os.Exit) without generating", sprintf("generation reachable: %v", reach[B]))
+			r.Check(okFlag, "no-overwrite-edge", c.Pos(flagFact.If.Pos()), "taken only when no planned change has Change == ChangeReplace", why)
 		default:
-			r.Bad("entry-edge|"+sprintf("block%d", p.Index), c.Pos(iff.Pos()), "the no-overwrite edge or the consent edge", "another condition: "+iff.Cond.String())
+			r.Bad("entry-edge|"+sprintf("block%d", p.Index), c.Pos(bulk.Pos()), "every way into the generating block is the no-overwrite edge or the consent edge", "an edge from block "+sprintf("%d", p.Index)+" under neither condition")
 		}
 	}
 	r.Check(nFlag == 1 && nConsent == 1, "entry-edges", c.Pos(bulk.Pos()), "exactly two ways into generation: nothing is overwritten, or the user consented", sprintf("%d flag edges, %d consent edges", nFlag, nConsent))
+	// a refusal ends the process: the blocks that print the abort message do not reach generation.
+	// (Edges after os.Exit are cut, so any path from the consent test that does not carry the consent facts must not reach B.)
+	for _, b := range cli.Blocks {
+		iff, ok := lastInstr(b).(*ssa.If)
+		if !ok {
+			continue
+		}
+		bin, ok := iff.Cond.(*ssa.BinOp)
+		if !ok {
+			continue
+		}
+		if k, isK := bin.Y.(*ssa.Const); !isK || k.Value == nil || k.Value.Kind() != constant.String || constant.StringVal(k.Value) != "y" {
+			continue
+		}
+		refuse := b.Succs[0]
+		if bin.Op == token.EQL {
+			refuse = b.Succs[1]
+		}
+		reach := reachableFrom(refuse, nil)
+		r.Check(!reach[B], "refusal-exits", c.Pos(iff.Pos()), "any other answer ends the process (os.Exit) without generating", sprintf("generation reachable: %v", reach[B]))
+	}
+}
+
+func lastInstr(b *ssa.BasicBlock) ssa.Instruction {
+	if len(b.Instrs) == 0 {
+		return nil
+	}
+	return b.Instrs[len(b.Instrs)-1]
 }
 
 type phiIn struct {
